@@ -56,4 +56,20 @@ def handleSuite (line : String) : String :=
     | _ => "bad"
   | _ => "bad"
 
+/-- `isolation <memspec> <prexec> <trap> <cases> => <start-equal><result-equal>,...`: the harness ran the
+    suite and every case alone; by C08_start / C08_fresh the model hands every case the same machine, so
+    every pair must read 11 -/
+def handleIsolation (line : String) : String :=
+  match line.splitOn " => " with
+  | [req, res] =>
+    match words req with
+    | [_, spec, pe, tr, names] =>
+      let got := res.trim.splitOn ","
+      let ok := got.all (· == "11") && got.length == (names.splitOn ",").length
+      let d := if ok then "agree" else s!"DIFF isolation:model=all-11"
+      let v := if ok then "specok" else s!"VIOL C08:start:{spec}:prexec={pe}:trap={tr}:{names}:{res.trim}"
+      s!"{d} | {v} | isolation.{spec}.{pe}{tr}"
+    | _ => "bad"
+  | _ => "bad"
+
 end Driver
